@@ -23,6 +23,7 @@ import LinVerif.Model.Route
 import LinVerif.Model.Hash64
 import LinVerif.Model.InfluxField
 import LinVerif.Model.FlatRow
+import LinVerif.Model.C16Ident
 import LinVerif.Generated.C16
 
 namespace LinVerif.Driver.C16
@@ -167,6 +168,10 @@ def tb : Bool := Generated.C16.lessTieBreakOnValue
 whose sorted order does not depend on the algorithm (see design note). -/
 def sortTags : List Tag → List Tag := insertionSort (less tb)
 
+/-- where the converter sanitises the metric name / the namespace now (regenerated from the source) -/
+def nameFlow : C16Ident.NameFlow := .ofTriple Generated.C16.protoNameFlow
+def nsFlow : C16Ident.NameFlow := .ofTriple Generated.C16.protoNsFlow
+
 def H : String → Nat := Hash64.xxh64Str
 
 /-- days since 1970-01-01 → (year, month) and back (proleptic Gregorian, Hinnant's algorithms);
@@ -298,14 +303,14 @@ def step (st : St) (ws : List String) : St × String :=
   | "conv" :: rest =>
     match metric? rest with
     | some m =>
-      match convert tb sortTags H st.cfg m with
+      match C16Ident.convertF nameFlow nsFlow tb sortTags H st.cfg m with
       | .ok s => (st, showStored s)
       | .error e => (st, "err " ++ showErr e)
     | none => (st, "bad-op")
   | "add" :: rest =>
     match metric? rest with
     | some m =>
-      match convert tb sortTags H st.cfg m with
+      match C16Ident.convertF nameFlow nsFlow tb sortTags H st.cfg m with
       | .ok s => ({ st with batch := st.batch ++ [s] }, showStored s)
       | .error e => (st, "err " ++ showErr e)
     | none => (st, "bad-op")
